@@ -1,2 +1,647 @@
-use qvlib::Ctx;
-pub fn main(_ctx: Ctx) -> ! { std::process::exit(2) }
+//! C20 — the zone store holds exactly the records added to it.
+//!
+//! Histories of `HashMapTreeZone::add` are enumerated exhaustively (every
+//! sequence over the alphabet up to a depth, no merging) and, over smaller
+//! sub-alphabets, searched to closure with the complete tree (read from the
+//! derived Debug output) as visited-set key. After every add the result and
+//! all observations are compared with `refmodel::RefStore`.
+
+use std::collections::{BTreeMap, BTreeSet};
+use std::sync::atomic::{AtomicU64, Ordering};
+
+use quandary::class::Class;
+use quandary::db::zone::{GluePolicy, IteratedRrset, LookupOptions, LookupResult, SingleRrset};
+use quandary::db::{HashMapTreeZone, Zone};
+use quandary::rr::{Ttl, Type};
+use qvlib::qd::{qname, rdata, wn};
+use qvlib::wire::{self, c, t, WName};
+use qvlib::{catch, hex, json, panic_key, unhex, Ctx, Local, Value};
+
+use crate::bfs;
+use crate::dbg;
+use crate::refmodel::{RefStore, Resolved, Rr};
+
+// ------------------------------------------------------------------ alphabet
+
+fn soa(mname: &str, serial: u32) -> Vec<u8> {
+    let mut r = wire::wname(mname);
+    r.extend_from_slice(&wire::wname("hm.z.y."));
+    for v in [serial, 2, 3, 4, 5] {
+        r.extend_from_slice(&v.to_be_bytes());
+    }
+    r
+}
+
+/// The add alphabet for a zone `z.y.` of class IN (also used, unchanged, for a
+/// root-apex zone, where every owner is in the zone). Groups: apex RRsets
+/// (SOA / NS with equal-by-case RDATA, TTL conflicts), owners at four depths
+/// with case variants, a wildcard, fresh deep owners; then rejections: owners
+/// beside / above / unrelated to the apex (one sharing the apex's labels as a
+/// prefix), class mismatches at existing and at not-yet-existing owners.
+fn alphabet() -> Vec<Rr> {
+    let a1: &[u8] = &[192, 0, 2, 1];
+    let a2: &[u8] = &[192, 0, 2, 2];
+    let n1 = wire::wname("ns.z.y.");
+    let n1u = wire::wname("NS.Z.y.");
+    let n2 = wire::wname("ns2.z.y.");
+    let x1: &[u8] = b"\x01x";
+    let x1u: &[u8] = b"\x01X";
+    let r = Rr::new;
+    vec![
+        // apex RRsets
+        r("z.y.", t::SOA, c::IN, 1, &soa("ns.z.y.", 1)),
+        r("Z.Y.", t::SOA, c::IN, 1, &soa("NS.z.Y.", 1)), // equal to the previous by case
+        r("z.y.", t::SOA, c::IN, 1, &soa("ns.z.y.", 2)),
+        r("z.y.", t::SOA, c::IN, 2, &soa("ns.z.y.", 1)), // TTL conflict once an SOA exists
+        r("z.y.", t::NS, c::IN, 1, &n1),
+        r("Z.y.", t::NS, c::IN, 1, &n1u),
+        r("z.y.", t::NS, c::IN, 2, &n2),
+        r("z.y.", t::A, c::IN, 1, a1),
+        // one level down, with a case-variant owner
+        r("a.z.y.", t::A, c::IN, 1, a1),
+        r("a.z.y.", t::A, c::IN, 1, a2),
+        r("a.z.y.", t::A, c::IN, 2, a1),
+        r("A.z.y.", t::A, c::IN, 1, a1),
+        r("A.Z.Y.", t::TXT, c::IN, 1, x1),
+        r("a.z.y.", t::TXT, c::IN, 1, x1u), // TXT is compared octet-wise: a second RDATA
+        r("a.z.y.", t::NS, c::IN, 1, &n1),
+        r("a.z.y.", t::NS, c::IN, 1, &n1u),
+        // deeper: empty non-terminals appear and get filled in later
+        r("b.a.z.y.", t::A, c::IN, 1, a1),
+        r("b.a.z.y.", t::A, c::IN, 2, a2),
+        r("b.a.z.y.", t::TXT, c::IN, 2, x1),
+        r("c.b.a.z.y.", t::A, c::IN, 1, a1),
+        r("c.b.a.z.y.", t::NS, c::IN, 2, &n1),
+        r("B.a.z.y.", t::A, c::IN, 1, a2),
+        r("*.z.y.", t::A, c::IN, 1, a1),
+        r("d.z.y.", t::A, c::IN, 1, a1),
+        r("e.d.z.y.", t::TXT, c::IN, 1, x1),
+        // owners outside the zone
+        r("s.y.", t::A, c::IN, 1, a1),     // sibling of the apex
+        r("y.", t::A, c::IN, 1, a1),       // parent of the apex
+        r(".", t::NS, c::IN, 1, &n1),      // root
+        r("q.", t::A, c::IN, 1, a1),       // unrelated
+        r("z.y.x.", t::A, c::IN, 1, a1),   // the apex's labels, but not as a suffix
+        r("az.y.", t::A, c::IN, 1, a1),    // label with the apex's first label as a suffix
+        // class mismatches (at the apex, at a possibly existing node, at nodes that do not exist yet)
+        r("z.y.", t::A, c::CH, 1, a1),
+        r("a.z.y.", t::A, c::CH, 1, a1),
+        r("c.b.a.z.y.", t::A, c::CH, 1, a1),
+        r("e.d.z.y.", t::TXT, c::HS, 1, x1),
+        r("f.z.y.", t::A, c::CH, 1, a1),
+        // wrong class and outside at once
+        r("s.y.", t::A, c::CH, 1, a1),
+    ]
+}
+
+/// Sub-alphabets (indices into `alphabet()`) searched to closure.
+fn sub_alphabets() -> Vec<(&'static str, Vec<usize>)> {
+    vec![
+        ("tree shape: owners at depths 0-3, wildcard, case variants, empty non-terminals, rejected adds at missing nodes", vec![7, 8, 11, 16, 19, 21, 22, 23, 24, 25, 26, 30, 32, 33, 34, 35]),
+        ("RRsets: SOA/NS/A/TXT at the apex and one child, equal-by-case RDATA, TTL conflicts in either order", vec![0, 1, 2, 3, 4, 5, 6, 7, 8, 9, 10, 11, 12, 13, 14, 15, 31]),
+        ("mixed: apex SOA/NS plus depth, TTL conflicts below empty non-terminals", vec![0, 2, 3, 4, 6, 8, 10, 16, 17, 18, 19, 20, 21, 24, 33, 36]),
+    ]
+}
+
+const LOOKUP_TYPES: [u16; 5] = [t::A, t::NS, t::SOA, t::TXT, t::CNAME];
+
+/// Names looked up around every history, besides the model's nodes.
+fn probe_names(alpha: &[Rr]) -> Vec<WName> {
+    let mut set: BTreeSet<WName> = alpha.iter().map(|r| wire::lower(&r.owner)).collect();
+    for extra in ["x.z.y.", "x.a.z.y.", "x.b.a.z.y.", "y.", "x.c.b.a.z.y.", "x.d.z.y.", "f.z.y.", "e.d.z.y.", "c.b.a.z.y.", "b.a.z.y."] {
+        set.insert(wire::wname(extra));
+    }
+    set.into_iter().collect()
+}
+
+// -------------------------------------------------------------- observations
+
+type ObsRrset = (u16, u32, Vec<Vec<u8>>);
+
+fn canon_set<'a, I: Iterator<Item = &'a quandary::rr::Rdata>>(class: u16, typ: u16, it: I) -> Vec<Vec<u8>> {
+    let mut v: Vec<Vec<u8>> = it.map(|r| wire::canon_rdata(class, typ, r.octets())).collect();
+    v.sort();
+    v
+}
+
+fn obs_iterated(class: u16, r: &IteratedRrset) -> ObsRrset {
+    let typ = u16::from(r.rr_type);
+    (typ, u32::from(r.ttl), canon_set(class, typ, r.rdatas.iter()))
+}
+
+fn obs_single(class: u16, typ: u16, r: &SingleRrset) -> (u32, Vec<Vec<u8>>) {
+    (u32::from(r.ttl), canon_set(class, typ, r.rdatas.iter()))
+}
+
+fn model_set(set: &(u32, Vec<Vec<u8>>)) -> (u32, Vec<Vec<u8>>) {
+    let mut v = set.1.clone();
+    v.sort();
+    (set.0, v)
+}
+
+fn nt(n: &[u8]) -> String {
+    wire::name_text(n)
+}
+
+/// The tree nodes (lower-cased name text) of a zone, from its Debug output;
+/// also the canonical text of the whole zone (the complete-state key).
+fn debug_tree(zone: &HashMapTreeZone) -> Result<(Vec<String>, String), String> {
+    let text = format!("{zone:?}");
+    let dv = dbg::parse(&text)?;
+    let apex = dv.field("apex").ok_or("no apex in Debug output")?;
+    let mut nodes = Vec::new();
+    dbg::walk_nodes(apex, None, &mut nodes)?;
+    let mut names = Vec::new();
+    for n in &nodes {
+        // The label under which the parent holds the node must be the node's
+        // own first label (case-insensitively): otherwise lookups by label
+        // and iteration by node name would disagree.
+        if let Some(k) = n.key {
+            let first = n.name.split('.').next().unwrap_or("");
+            if !first.eq_ignore_ascii_case(k) {
+                return Err(format!("tree node named {} is stored under label {k}", n.name));
+            }
+        }
+        names.push(n.name.to_ascii_lowercase());
+    }
+    names.sort();
+    Ok((names, dv.canon()))
+}
+
+/// All observations of the statement compared with the model.
+fn check_state(zone: &HashMapTreeZone, model: &RefStore, probes: &[WName], with_debug: bool) -> Result<Option<String>, (String, String)> {
+    let class = model.class;
+    // iter_by_node: every node once, with exactly its de-duplicated RRsets.
+    let mut seen: BTreeMap<WName, Vec<ObsRrset>> = BTreeMap::new();
+    for (name, rrsets) in zone.iter_by_node() {
+        let n = wire::lower(&wn(name));
+        let sets: Vec<ObsRrset> = rrsets.map(|r| obs_iterated(class, &r)).collect();
+        if seen.insert(n.clone(), sets).is_some() {
+            return Err(("iter_by_node:node-twice".into(), format!("iter_by_node yields node {} twice", nt(&n))));
+        }
+    }
+    for (n, node) in &model.nodes {
+        let got = match seen.get(n) {
+            Some(g) => g,
+            None => return Err(("iter_by_node:node-missing".into(), format!("iter_by_node does not yield node {} ({})", nt(n), if node.is_empty() { "empty non-terminal or empty apex" } else { "owns records" }))),
+        };
+        let mut got_sorted = got.clone();
+        got_sorted.sort();
+        let want: Vec<ObsRrset> = node.iter().map(|(ty, set)| (*ty, set.0, model_set(set).1)).collect();
+        if got_sorted != want {
+            return Err(("iter_by_node:rrsets".into(), format!("iter_by_node at {}: got {:?}, reference {:?}", nt(n), show_sets(&got_sorted), show_sets(&want))));
+        }
+    }
+    if let Some(extra) = seen.keys().find(|n| !model.nodes.contains_key(*n)) {
+        return Err(("iter_by_node:extra-node".into(), format!("iter_by_node yields node {} which no successful add created", nt(extra))));
+    }
+    // iter_by_rrset: exactly the RRsets added.
+    let mut flat: Vec<(WName, ObsRrset)> = zone.iter_by_rrset().map(|(n, r)| (wire::lower(&wn(n)), obs_iterated(class, &r))).collect();
+    flat.sort();
+    let mut want_flat: Vec<(WName, ObsRrset)> = Vec::new();
+    for (n, node) in &model.nodes {
+        for (ty, set) in node {
+            want_flat.push((n.clone(), (*ty, set.0, model_set(set).1)));
+        }
+    }
+    want_flat.sort();
+    if flat != want_flat {
+        return Err(("iter_by_rrset".into(), format!("iter_by_rrset yields {} RRsets {:?}, reference has {} {:?}", flat.len(), flat.iter().map(|(n, s)| format!("{} {}", nt(n), s.0)).collect::<Vec<_>>(), want_flat.len(), want_flat.iter().map(|(n, s)| format!("{} {}", nt(n), s.0)).collect::<Vec<_>>())));
+    }
+    // soa() / ns() agree with the apex RRsets.
+    for (what, typ, got) in [("soa", t::SOA, zone.soa().map(|r| obs_single(class, t::SOA, &r))), ("ns", t::NS, zone.ns().map(|r| obs_single(class, t::NS, &r)))] {
+        let want = model.rrset(&model.apex, typ).map(model_set);
+        if got != want {
+            return Err((what.into(), format!("{what}() = {:?} but the apex {} RRset of the reference is {:?}", got.map(|g| (g.0, g.1.iter().map(|r| hex(r)).collect::<Vec<_>>())), if typ == t::SOA { "SOA" } else { "NS" }, want.map(|g| (g.0, g.1.iter().map(|r| hex(r)).collect::<Vec<_>>())))));
+        }
+    }
+    // Lookups: every node and every probe name, every type, cuts ignored.
+    let opts = || LookupOptions { unchecked: false, search_below_cuts: true };
+    let mut names: Vec<&WName> = model.nodes.keys().collect();
+    for p in probes {
+        if !model.nodes.contains_key(p) {
+            names.push(p);
+        }
+    }
+    for n in names {
+        let qn = qname(n);
+        let res = model.resolve(n, true);
+        for typ in LOOKUP_TYPES {
+            let got = zone.lookup(&qn, Type::from(typ), opts());
+            let ok = match (&res, &got) {
+                (Resolved::Outside, LookupResult::WrongZone) => true,
+                (Resolved::NxDomain, LookupResult::NxDomain) => true,
+                (Resolved::Node { node, synthesized }, _) => {
+                    let src_ok = |s: &Option<std::borrow::Cow<quandary::name::Name>>| match (s, synthesized) {
+                        (None, false) => true,
+                        (Some(s), true) => wire::eq_ci(&wn(s), node),
+                        _ => false,
+                    };
+                    match (model.rrset(node, typ), &got) {
+                        (Some(set), LookupResult::Found(f)) => obs_single(class, typ, &f.data) == model_set(set) && src_ok(&f.source_of_synthesis),
+                        (None, LookupResult::NoRecords(nr)) => !model.has(node, t::CNAME) && src_ok(&nr.source_of_synthesis),
+                        (None, LookupResult::Cname(cn)) => model.rrset(node, t::CNAME).map(|set| obs_single(class, t::CNAME, &cn.rrset) == model_set(set)).unwrap_or(false) && src_ok(&cn.source_of_synthesis),
+                        _ => false,
+                    }
+                }
+                _ => false,
+            };
+            if !ok {
+                return Err(("lookup".into(), format!("lookup({}, type {typ}, below cuts) = {} but the reference resolves the name to {:?} with RRset {:?}", nt(n), lookup_text(&got), res_text(&res), match &res { Resolved::Node { node, .. } => model.rrset(node, typ).map(|s| (s.0, s.1.len())), _ => None })));
+            }
+        }
+    }
+    // The tree as the derived Debug output shows it: same node set.
+    if with_debug {
+        let (names, canon) = debug_tree(zone).map_err(|e| ("debug-tree".to_string(), e))?;
+        let mut want: Vec<String> = model.nodes.keys().map(|n| nt(n)).collect();
+        want.sort();
+        if names != want {
+            return Err(("tree-nodes".into(), format!("the zone's tree (Debug output) has nodes {names:?}, the reference has {want:?}")));
+        }
+        return Ok(Some(canon));
+    }
+    Ok(None)
+}
+
+fn show_sets(v: &[ObsRrset]) -> Vec<String> {
+    v.iter().map(|(ty, ttl, rd)| format!("type {ty} ttl {ttl} [{}]", rd.iter().map(|r| hex(r)).collect::<Vec<_>>().join(" "))).collect()
+}
+
+fn res_text(r: &Resolved) -> String {
+    match r {
+        Resolved::Outside => "outside the zone".into(),
+        Resolved::NxDomain => "no such name".into(),
+        Resolved::Cut(n) => format!("cut at {}", nt(n)),
+        Resolved::Node { node, synthesized } => format!("node {}{}", nt(node), if *synthesized { " (wildcard synthesis)" } else { "" }),
+    }
+}
+
+fn lookup_text(r: &LookupResult) -> String {
+    match r {
+        LookupResult::Found(f) => format!("Found(ttl {}, {} rdata, synthesis {:?})", u32::from(f.data.ttl), f.data.rdatas.iter().count(), f.source_of_synthesis.as_ref().map(|s| s.to_string())),
+        LookupResult::Cname(_) => "Cname".into(),
+        LookupResult::Referral(r) => format!("Referral({})", r.child_zone),
+        LookupResult::NoRecords(n) => format!("NoRecords(synthesis {:?})", n.source_of_synthesis.as_ref().map(|s| s.to_string())),
+        LookupResult::NxDomain => "NxDomain".into(),
+        LookupResult::WrongZone => "WrongZone".into(),
+    }
+}
+
+/// Everything lookups can tell about the zone, in both cut modes, octet
+/// exact (no canonicalisation): compared before/after a rejected add.
+fn fingerprint(zone: &HashMapTreeZone, probes: &[(WName, Box<quandary::name::Name>)]) -> Vec<u8> {
+    let mut out = Vec::with_capacity(2048);
+    let push_set = |out: &mut Vec<u8>, r: &SingleRrset| {
+        out.extend_from_slice(&u32::from(r.ttl).to_be_bytes());
+        for rd in r.rdatas.iter() {
+            out.extend_from_slice(&(rd.octets().len() as u16).to_be_bytes());
+            out.extend_from_slice(rd.octets());
+        }
+        out.push(0xfe);
+    };
+    for (_, qn) in probes {
+        for below in [false, true] {
+            for typ in LOOKUP_TYPES {
+                match zone.lookup(qn, Type::from(typ), LookupOptions { unchecked: false, search_below_cuts: below }) {
+                    LookupResult::Found(f) => {
+                        out.push(1);
+                        push_set(&mut out, &f.data);
+                        if let Some(s) = &f.source_of_synthesis {
+                            out.extend_from_slice(s.wire_repr());
+                        }
+                    }
+                    LookupResult::Cname(cn) => {
+                        out.push(2);
+                        push_set(&mut out, &cn.rrset);
+                    }
+                    LookupResult::Referral(r) => {
+                        out.push(3);
+                        out.extend_from_slice(r.child_zone.wire_repr());
+                        push_set(&mut out, &r.ns_rrset);
+                    }
+                    LookupResult::NoRecords(nr) => {
+                        out.push(4);
+                        if let Some(s) = &nr.source_of_synthesis {
+                            out.extend_from_slice(s.wire_repr());
+                        }
+                    }
+                    LookupResult::NxDomain => out.push(5),
+                    LookupResult::WrongZone => out.push(6),
+                }
+                out.push(0xff);
+            }
+        }
+    }
+    out
+}
+
+// ---------------------------------------------------------------------- step
+
+pub struct Env {
+    apex: WName,
+    class: u16,
+    alpha: Vec<Rr>,
+    probes: Vec<WName>,
+    fp_probes: Vec<(WName, Box<quandary::name::Name>)>,
+}
+
+impl Env {
+    fn new(apex: &str, alpha: Vec<Rr>) -> Env {
+        let probes = probe_names(&alpha);
+        let fp_probes = probes.iter().map(|p| (p.clone(), qname(p))).collect();
+        Env { apex: wire::wname(apex), class: c::IN, alpha, probes, fp_probes }
+    }
+    fn new_zone(&self) -> HashMapTreeZone {
+        HashMapTreeZone::new(qname(&self.apex), Class::from(self.class), GluePolicy::Narrow)
+    }
+}
+
+struct StepOut {
+    class: String,
+    canon: Option<String>,
+}
+
+fn err_name(e: &quandary::db::Error) -> &'static str {
+    match e {
+        quandary::db::Error::NotInZone => "NotInZone",
+        quandary::db::Error::ClassMismatch => "ClassMismatch",
+        quandary::db::Error::TtlMismatch => "TtlMismatch",
+        quandary::db::Error::InvalidRdata => "InvalidRdata",
+    }
+}
+
+/// Applies one add to the real zone and to the model and checks everything.
+/// `fp_before` is the lookup fingerprint of the zone before the add.
+fn step(env: &Env, zone: &mut HashMapTreeZone, model: &mut RefStore, rr: &Rr, fp_before: &[u8], with_debug: bool) -> Result<StepOut, (String, String)> {
+    let nodes_before = model.nodes.len();
+    let had_set = model.has(&rr.owner, rr.typ);
+    let want = model.add(rr);
+    let r = catch(|| {
+        let got = zone.add(&qname(&rr.owner), Type::from(rr.typ), Class::from(rr.class), Ttl::from(rr.ttl), rdata(&rr.rdata));
+        let class = match (&want, &got) {
+            (Ok(changed), Ok(())) => {
+                if !had_set {
+                    format!("Ok:new-rrset:+{}nodes", model.nodes.len() - nodes_before)
+                } else if *changed {
+                    "Ok:rdata-added-to-rrset".to_string()
+                } else {
+                    "Ok:duplicate-rdata-ignored".to_string()
+                }
+            }
+            (Err(why), Err(e)) => {
+                if !why.contains(&err_name(e)) {
+                    return Err(("add:error-kind".to_string(), format!("add was rejected with {} but the conditions that fail are {why:?}", err_name(e))));
+                }
+                format!("Err({}) of {}", err_name(e), why.join("+"))
+            }
+            (Ok(_), Err(e)) => return Err(("add:rejected".to_string(), format!("add failed with {} although the owner is in the zone, the class matches and the TTL agrees with its RRset", err_name(e)))),
+            (Err(why), Ok(())) => return Err(("add:accepted".to_string(), format!("add succeeded although it must be rejected ({})", why.join("+")))),
+        };
+        if want.is_err() {
+            let fp_after = fingerprint(zone, &env.fp_probes);
+            if fp_after != fp_before {
+                return Err(("rejected-add-changed-lookups".to_string(), format!("a rejected add ({}) changed the result of a lookup", want.as_ref().err().unwrap().join("+"))));
+            }
+        }
+        let canon = check_state(zone, model, &env.probes, with_debug)?;
+        Ok(StepOut { class, canon })
+    });
+    match r {
+        Ok(x) => x,
+        Err(p) => Err((panic_key(&p), p)),
+    }
+}
+
+/// Replay / confirmation path: the whole history on a fresh zone.
+pub fn run_history(env: &Env, ops: &[Rr]) -> Option<(String, Value)> {
+    let mut zone = env.new_zone();
+    let mut model = RefStore::new(&env.apex, env.class);
+    if let Err((k, w)) = check_state(&zone, &model, &env.probes, true) {
+        return Some((k, json!({"failed_at_step": "initial (empty zone)", "what": w})));
+    }
+    for (i, rr) in ops.iter().enumerate() {
+        let fp = fingerprint(&zone, &env.fp_probes);
+        if let Err((k, w)) = step(env, &mut zone, &mut model, rr, &fp, true) {
+            return Some((k, json!({"failed_at_step": i, "add": rr.to_json(), "what": w})));
+        }
+    }
+    None
+}
+
+fn case_json(env: &Env, ops: &[Rr], detail: Value) -> Value {
+    json!({"apex": nt(&env.apex), "apex_wire": hex(&env.apex), "class": env.class, "adds": ops.iter().map(|r| r.to_json()).collect::<Vec<_>>(), "observed": detail})
+}
+
+fn report(l: &mut Local, env: &Env, ops: &[Rr], key: &str, what: &str) {
+    match run_history(env, ops) {
+        Some((k, d)) => l.violation(&k, case_json(env, ops, d)),
+        None => l.violation(&format!("search-only:{key}"), case_json(env, ops, json!({"what": what, "note": "seen on the cloned zone during the search, not reproduced by re-running the history on a fresh zone"}))),
+    }
+}
+
+// ------------------------------------------------------- plain enumeration
+
+struct Dfs<'a> {
+    env: &'a Env,
+    depth: usize,
+    hist: Vec<usize>,
+    states: u64,
+}
+
+impl Dfs<'_> {
+    fn go(&mut self, l: &mut Local, zone: &HashMapTreeZone, model: &RefStore) {
+        if self.hist.len() >= self.depth {
+            return;
+        }
+        let fp = fingerprint(zone, &self.env.fp_probes);
+        // The Debug cross-check of the tree is made on every state of the
+        // last level and on every 8th state above it (it dominates the cost).
+        for op in 0..self.env.alpha.len() {
+            let mut z = zone.clone();
+            let mut m = model.clone();
+            self.hist.push(op);
+            l.tick();
+            self.states += 1;
+            let with_debug = self.hist.len() == self.depth || self.states % 8 == 0;
+            match step(self.env, &mut z, &mut m, &self.env.alpha[op], &fp, with_debug) {
+                Ok(out) => {
+                    l.outcome(&out.class, || json!({"apex": nt(&self.env.apex), "adds": self.hist.iter().map(|i| self.env.alpha[*i].to_json()).collect::<Vec<_>>()}));
+                    self.go(l, &z, &m);
+                }
+                Err((k, w)) => {
+                    let ops: Vec<Rr> = self.hist.iter().map(|i| self.env.alpha[*i].clone()).collect();
+                    report(l, self.env, &ops, &k, &w);
+                }
+            }
+            self.hist.pop();
+        }
+    }
+}
+
+/// Every sequence of length <= depth over env.alpha (sharded on the first two
+/// adds). Returns the number of histories executed.
+fn enumerate(ctx: &Ctx, env: &Env, depth: usize) -> u64 {
+    let n = env.alpha.len();
+    let total = AtomicU64::new(0);
+    // Level 1 and 2 are run inside the shards' prefixes: shard (i, j) checks
+    // the prefix [i] only when j == 0.
+    let shards: Vec<(usize, usize)> = (0..n).flat_map(|i| (0..n).map(move |j| (i, j))).collect();
+    ctx.par_for_each(&shards, |l, (i, j)| {
+        let mut zone = env.new_zone();
+        let mut model = RefStore::new(&env.apex, env.class);
+        let mut hist = Vec::new();
+        let mut count = 0u64;
+        for (lvl, op) in [*i, *j].iter().enumerate() {
+            if lvl >= depth {
+                break;
+            }
+            let fp = fingerprint(&zone, &env.fp_probes);
+            hist.push(*op);
+            let counted = lvl == 1 || *j == 0;
+            if counted {
+                l.tick();
+                count += 1;
+            }
+            match step(env, &mut zone, &mut model, &env.alpha[*op], &fp, true) {
+                Ok(out) => {
+                    if counted {
+                        l.outcome(&out.class, || json!({"apex": nt(&env.apex), "adds": hist.iter().map(|i| env.alpha[*i].to_json()).collect::<Vec<_>>()}));
+                    }
+                }
+                Err((k, w)) => {
+                    if counted {
+                        let ops: Vec<Rr> = hist.iter().map(|i| env.alpha[*i].clone()).collect();
+                        report(l, env, &ops, &k, &w);
+                    }
+                    total.fetch_add(count, Ordering::Relaxed);
+                    return;
+                }
+            }
+        }
+        if depth > 2 {
+            let mut d = Dfs { env, depth, hist, states: 0 };
+            d.go(l, &zone, &model);
+            count += d.states;
+        }
+        total.fetch_add(count, Ordering::Relaxed);
+    });
+    total.load(Ordering::Relaxed)
+}
+
+// --------------------------------------------------------- closure search
+
+struct State {
+    zone: HashMapTreeZone,
+    model: RefStore,
+}
+
+fn closure(ctx: &Ctx, env: &Env, ops: &[usize]) -> bfs::Stats {
+    let zone = env.new_zone();
+    let (_, key) = debug_tree(&zone).expect("Debug output of an empty zone");
+    let init = State { model: RefStore::new(&env.apex, env.class), zone };
+    bfs::run(ctx, init, key, ops.len(), None, |l, st: &State, opi, hist| {
+        l.tick();
+        let rr = &env.alpha[ops[opi]];
+        let fp = fingerprint(&st.zone, &env.fp_probes);
+        let mut zone = st.zone.clone();
+        let mut model = st.model.clone();
+        match step(env, &mut zone, &mut model, rr, &fp, true) {
+            Ok(out) => {
+                l.outcome(&out.class, || json!({"apex": nt(&env.apex), "adds": hist().iter().map(|i| env.alpha[ops[*i]].to_json()).collect::<Vec<_>>()}));
+                Some((out.canon.expect("canonical state"), State { zone, model }))
+            }
+            Err((k, w)) => {
+                let h: Vec<Rr> = hist().iter().map(|i| env.alpha[ops[*i]].clone()).collect();
+                report(l, env, &h, &k, &w);
+                None
+            }
+        }
+    })
+}
+
+// ---------------------------------------------------------------------- main
+
+fn replay(ctx: Ctx, case: &Value) -> ! {
+    let apex = unhex(case.get("apex_wire").and_then(|a| a.as_str()).unwrap_or("00"));
+    let ops: Vec<Rr> = case.get("adds").and_then(|o| o.as_array()).map(|a| a.iter().filter_map(Rr::from_json).collect()).unwrap_or_default();
+    let mut env = Env::new(&nt(&apex), ops.clone());
+    env.class = case.get("class").and_then(|c| c.as_u64()).unwrap_or(1) as u16;
+    // Probe the standard names as well as the owners of the case.
+    let mut all = alphabet();
+    all.extend(ops.iter().cloned());
+    env.probes = probe_names(&all);
+    env.fp_probes = env.probes.iter().map(|p| (p.clone(), qname(p))).collect();
+    println!("replaying {} adds on zone {}", ops.len(), nt(&apex));
+    match run_history(&env, &ops) {
+        Some((key, detail)) => {
+            println!("reproduced: {key}: {detail}");
+            let mut c = case.clone();
+            c["observed"] = detail;
+            ctx.violation(&key, c);
+        }
+        None => println!("not reproduced: the case passes"),
+    }
+    ctx.finish("model_checking", "replay of one recorded case", false)
+}
+
+pub fn main(ctx: Ctx) -> ! {
+    if let Some(case) = ctx.replay_case().cloned() {
+        replay(ctx, &case);
+    }
+    let env = Env::new("z.y.", alphabet());
+    let env_root = Env::new(".", alphabet());
+    // A 22-add core of the alphabet (one or two adds of every group) for one
+    // more level of plain enumeration in the thorough tier.
+    let core: Vec<Rr> = [0usize, 1, 2, 3, 4, 6, 7, 8, 9, 10, 11, 13, 16, 17, 19, 21, 22, 24, 25, 31, 33, 34].iter().map(|i| alphabet()[*i].clone()).collect();
+    let env_core = Env::new("z.y.", core);
+    let mut runs: Vec<(&Env, usize)> = vec![(&env, ctx.pick(3, 4)), (&env_root, ctx.pick(3, 4))];
+    if !ctx.quick() {
+        runs.push((&env_core, 5));
+    }
+    let mut parts = Vec::new();
+    let mut traces = 0u64;
+    let mut states = 0u64;
+    let mut transitions = 0u64;
+    for (e, d) in runs {
+        let t0 = ctx.elapsed_s();
+        let n = enumerate(&ctx, e, d);
+        eprintln!("[C20] apex {}: {} histories of length <= {} over {} adds ({:.1}s)", nt(&e.apex), n, d, e.alpha.len(), ctx.elapsed_s() - t0);
+        parts.push(json!({"family": "all add sequences, no merging", "apex": nt(&e.apex), "class": "IN", "alphabet": e.alpha.len(), "max_length": d, "histories_executed": n, "wall_s": ((ctx.elapsed_s() - t0) * 100.0).round() / 100.0}));
+        traces += n;
+        states += n;
+        transitions += n;
+    }
+    let mut complete = true;
+    for (label, ops) in sub_alphabets() {
+        let t0 = ctx.elapsed_s();
+        let st = closure(&ctx, &env, &ops);
+        eprintln!("[C20] closure over {} adds ({label}): {} states, {} transitions, depth {} ({:.1}s)", ops.len(), st.states, st.transitions, st.levels.len() - 1, ctx.elapsed_s() - t0);
+        parts.push(json!({"family": "explicit-state closure, visited key = complete tree from Debug", "apex": "z.y.", "sub_alphabet": label, "adds": ops.iter().map(|i| env.alpha[*i].to_json()).collect::<Vec<_>>(), "states": st.states, "transitions": st.transitions, "states_first_reached_per_depth": st.levels, "closure_reached": st.complete, "wall_s": ((ctx.elapsed_s() - t0) * 100.0).round() / 100.0}));
+        states += st.states;
+        transitions += st.transitions;
+        traces += st.transitions;
+        complete &= st.complete;
+    }
+    ctx.set_extra("states", json!(states));
+    ctx.set_extra("transitions", json!(transitions));
+    ctx.set_extra("traces_validated_against_impl", json!(traces));
+    ctx.set_extra("families", Value::Array(parts));
+    ctx.set_extra("alphabet", Value::Array(env.alpha.iter().map(|r| r.to_json()).collect()));
+    ctx.set_extra(
+        "oracle_decisions",
+        json!([
+            "when several rejection conditions hold at once (owner outside the zone and class mismatch) the statement does not say which error is reported: any error naming a condition that fails is accepted",
+            "node names and owners are compared case-insensitively; RDATA sets are compared as sets of equality classes (names inside NS/SOA RDATA case-insensitive, everything else octet-wise), so neither the kept spelling nor the order is prescribed",
+            "the node set must be exactly the apex, the owners of successful adds and the names between them (empty non-terminals); an extra node would turn NXDOMAIN into an empty answer, which the lookup comparison would flag as well",
+            "after a rejected add only lookups are required to be unchanged (add is documented as not atomic); the check compares every lookup of every probe name, type and cut mode octet for octet, and additionally holds iteration to the reference, which a rejected add does not change",
+        ]),
+    );
+    ctx.assume("the derived Debug output of HashMapTreeZone shows the whole tree (used for the node cross-check and as visited-set key)");
+    ctx.assume("qvlib::wire::canon_rdata defines the RDATA equality classes (independent of quandary's Rdata::equals)");
+    ctx.finish(
+        "model_checking",
+        "every sequence of adds over the alphabet up to max_length on two zones (no merging), plus closure of three sub-alphabets under a visited set keyed by the complete tree; after every add: result vs the statement's success condition, iter_by_node / iter_by_rrset / soa / ns / lookups of every node and probe name vs a reference map, tree nodes vs Debug output, lookups unchanged after a rejected add. evaluations = adds executed and fully checked",
+        complete,
+    )
+}
